@@ -83,6 +83,24 @@ def dtype_ok(dtype, v):
     return f"dtype {dtype!r} is not in the checker's numpy table"
 
 
+def loss_category(dtype, v) -> str:
+    if dtype in ("bytes", "S", "bytes_") and isinstance(v, bytes) and v.endswith(b"\x00"):
+        return "S-dtype-strips-trailing-NUL"
+    if dtype in ("str", "U", "str_") and isinstance(v, bytes):
+        return "bytes-converted-to-text-by-str-dtype"
+    if dtype in ("str", "U", "str_") and isinstance(v, str) and v.endswith("\x00"):
+        return "U-dtype-strips-trailing-NUL"
+    if isinstance(dtype, str) and dtype.startswith(("int", "uint")):
+        if isinstance(v, float):
+            return "fraction-truncated-by-integer-dtype"
+        if isinstance(v, (str, bytes)):
+            return "text-into-integer-dtype"
+        return "integer-overflow"
+    if isinstance(dtype, str) and dtype.startswith("float"):
+        return "float-rounding"
+    return "other-loss"
+
+
 class PathStub(str):
     """pathlib.Path for the purposes of create_dataset: a comparable, hashable file name."""
 
@@ -257,6 +275,7 @@ def dataset_rule(ctx: Ctx):
         for name in KINDS:
             site = f"{fi.key}::{mode}::{name}"
             bad = None
+            cat = ""
             for (apid, n2), (vals, dt) in cells.items():
                 if n2 != name:
                     continue
@@ -264,13 +283,17 @@ def dataset_rule(ctx: Ctx):
                     why = dtype_ok(dt, _plain(v))
                     if why:
                         bad = f"{mode} mode, parameter kind {name}, dtype {dt!r}: {why}"
+                        cat = loss_category(dt, _plain(v))
                         break
                 if bad:
                     break
             if (3, name) not in cells:
                 ctx.unknown("R18.2", site, "no cells recorded")
+            elif bad is None:
+                ctx.proved("R18.2", site, "cells equal the parsed values")
             else:
-                ctx.decide(bad is None, "R18.2", site, "cells equal the parsed values", bad or "", where=where(fi, fi.node))
+                # the kind of loss is part of the finding's identity: a different loss on the same kind is a new finding
+                ctx.refuted("R18.2", f"{site}::{cat}", bad, where=where(fi, fi.node))
     # field-set mismatch
     rec = Rec()
     h = Harness(prog, rec.ext({}), max_steps=2_000_000)
